@@ -627,8 +627,21 @@ pub fn load_test_strings(corpus_dir: &str) -> Vec<String> {
 /// prefix and scanner template, before and after every atom of the union alphabet, and every
 /// ordered pair (glued; thorough: also separated by a line feed and by `;`)
 pub fn test_string_inputs(corpus_dir: &str, tier: Tier, pairs: bool) -> Vec<String> {
-    let ts = load_test_strings(corpus_dir);
+    let mut ts = load_test_strings(corpus_dir);
+    // position-stressing variants of every snippet (the structural oracles hold for any text):
+    // wide characters in place of letters, CR LF line ends, a line feed after every ';' and blank
+    let base = ts.clone();
+    for t in &base {
+        for (from, to) in [("a", "\u{e9}"), ("e", "\u{20ac}"), ("t", "\u{1f600}"), (" ", "\u{a0}"), ("\n", "\r\n"), (";", ";\n"), (" ", "\n"), (" ", " /*\u{e9}\n*/ ")] {
+            if t.contains(from) {
+                ts.push(t.replace(from, to));
+            }
+        }
+    }
+    ts.sort();
+    ts.dedup();
     let mut v: Vec<String> = ts.clone();
+    let ts = base;
     for (p, closers) in SEEDS {
         for t in &ts {
             v.push(format!("{p}{t}{}", closers[closers.len() - 1]));
